@@ -208,8 +208,13 @@ def e2_greedy_bound(ctx, n):
         G, paths, ws, is_int = gen2.rand_flow_dag(rng, nmax=6, npaths=(2, 4))
         g = len(fp.stDAG(G).decompose_using_max_bottleneck("flow")[0])
         for k in sorted({max(1, g - 1), g}):
+            extra = {}
+            if rng.random() < 0.4:      # given weights: more candidate weights than k must still give at most k paths
+                cand = sorted(set(ws)) + [ws[0] * 2, ws[0] * 3]
+                extra = {"solution_weights_superset": [int(x) if is_int else float(x) for x in cand],
+                         "optimization_options": {"optimize_with_greedy": False}}
             try:
-                m = fp.kFlowDecomp(G, flow_attr="flow", k=k, weight_type=int if is_int else float, solver_options={"threads": zoo.THREADS})
+                m = fp.kFlowDecomp(G, flow_attr="flow", k=k, weight_type=int if is_int else float, solver_options={"threads": zoo.THREADS}, **extra)
                 m.solve()
             except Exception as e:
                 ctx.report("kFlowDecomp raised " + repr(e), {"edges": [[u, v, d] for u, v, d in G.edges(data=True)], "k": k}); continue
@@ -217,7 +222,8 @@ def e2_greedy_bound(ctx, n):
             ctx.count("E2_k_bound_with_greedy", "cases")
             if m.is_solved():
                 sol = m.get_solution()
-                if len(sol["paths"]) > k or len(sol["paths"]) != len(sol["weights"]):
+                nonempty = [p for p in sol["paths"] if p]
+                if len(nonempty) > k or len(sol["paths"]) != len(sol["weights"]):
                     ctx.report(f"kFlowDecomp(k={k}) returned {len(sol['paths'])} paths / {len(sol['weights'])} weights",
                                {"edges": [[u, v, d] for u, v, d in G.edges(data=True)], "k": k, "solution": sol})
 
